@@ -210,4 +210,5 @@ pub fn run(out: &mut Out, tier: &str, seed: u64) {
     }
     crate::pwstr::totality(out, tier, seed);
     crate::objapi::short_hash_records(out, &mut rng);
+    crate::objapi::serde_field_lengths(out, &mut rng);
 }
